@@ -20,12 +20,14 @@ type ParserData struct {
 	loopInfo      []struct {
 		continueIndex int
 		breakIndex    int
-		blockDepth    int
+		openDepth     int
 	}
 	codeOverflow bool // 指令数量超出容量上限，多出的指令已被丢弃，此次解析必须以错误结束
 
-	loopLayer  int // 当前loop层数
-	blockDepth int // 当前已打开的语句块数量，break/continue 跳出时需要先关闭循环内打开的块
+	loopLayer int // 当前loop层数
+	// 当前已打开、尚未关闭的语句块(block.push)和模板语句块(fstr.block.push)，按打开顺序记录各自的关闭指令；
+	// break/continue 跳出时需要先按相反顺序关闭循环内打开的这些块
+	openBlocks []CodeType
 	codeStack  []struct {
 		code      []ByteCode
 		index     int
@@ -51,15 +53,16 @@ func (e *ParserData) LoopBegin() {
 	e.loopInfo = append(e.loopInfo, struct {
 		continueIndex int
 		breakIndex    int
-		blockDepth    int
-	}{continueIndex: len(e.continueStack), breakIndex: len(e.breakStack), blockDepth: e.blockDepth})
+		openDepth     int
+	}{continueIndex: len(e.continueStack), breakIndex: len(e.breakStack), openDepth: len(e.openBlocks)})
 }
 
-// loopUnwindBlocks 在 break/continue 的跳转之前，关闭循环体内尚未关闭的语句块(如 if)，否则每次跳出都会在块栈上遗留一层
+// loopUnwindBlocks 在 break/continue 的跳转之前，关闭循环体内尚未关闭的语句块(如 if)和模板语句块({% %})，
+// 否则每次跳出都会在块栈 / 模板块栈上遗留一层(20 次之后"嵌套层数过多"，模板之外的 if 返回 '' 而不是 null)
 func (e *ParserData) loopUnwindBlocks() {
 	info := e.loopInfo[len(e.loopInfo)-1]
-	for d := e.blockDepth - info.blockDepth; d > 0; d-- {
-		e.WriteCode(typeBlockPop, nil)
+	for i := len(e.openBlocks) - 1; i >= info.openDepth && i >= 0; i-- {
+		e.WriteCode(e.openBlocks[i], nil)
 	}
 }
 
@@ -122,10 +125,15 @@ func (e *ParserData) AddOp(operator CodeType) {
 	if operator == typeJne || operator == typeJmp {
 		val = IntType(0)
 	}
-	if operator == typeBlockPush {
-		e.blockDepth++
-	} else if operator == typeBlockPop {
-		e.blockDepth--
+	switch operator {
+	case typeBlockPush:
+		e.openBlocks = append(e.openBlocks, typeBlockPop)
+	case typeFStringBlockPush:
+		e.openBlocks = append(e.openBlocks, typeFStringBlockPop)
+	case typeBlockPop, typeFStringBlockPop:
+		if len(e.openBlocks) > 0 {
+			e.openBlocks = e.openBlocks[:len(e.openBlocks)-1]
+		}
 	}
 	e.WriteCode(operator, val)
 }
